@@ -22,6 +22,7 @@ func init() {
 		ID:    "C07",
 		Level: "exploration",
 		Rule: "getelementptr grid: 10 source element types (scalars, arrays, literal/packed/identified structs nested to depth 4, a vector) x 6 bases (pointer in address space 0/1/5, fixed vector of pointers, scalable vector of pointers, global) x index lists of length 0-5 drawn so that every index form occurs (i1/i8/i32/i64/i128 constants, non-constant scalar, zeroinitializer/splat/non-splat/undef/poison vector constants, vector constants with one undef/poison/constant-expression element, vectors of i1, vector types spelled through type aliases, non-constant fixed and scalable vectors, inrange, constant expressions). The result type predicted by the monitor's model is embedded in a use (store / initializer / alias type) and the module must be accepted by llvm-as. Compared with the prediction: the parser's type for the instruction, for the constant expression and on the alias pre-resolution path; ir.NewGetElementPtr and constant.NewGetElementPtr rebuilt from the parsed operands; the type recomputed after clearing the cache; gep.ResultType called directly through the export hook. " +
+			"Further cases: zeroinitializer elements inside vector indices; vector lengths 1, 2 and 4; source types that are or end in fixed vectors, stepped into several times per process; a sequence of API-built geps over predeclared element types in several address spaces whose earlier results are re-read after later ones were built. " +
 			"non-trivial = a gep with at least two indices or a vector base/index; distinct by the gep text",
 		Gen:           genC07,
 		MinNontrivial: 300,
@@ -57,6 +58,8 @@ func (g *c07Gen) srcTypes() []*mgen.Type {
 		mgen.Arr(0, mgen.Struct(false, i32, mgen.Ptr(i8, 1))),
 		mgen.Struct(false, mgen.Arr(2, inner), mgen.Arr(2, mgen.Arr(2, inner))),
 		mgen.Ptr(i32, 0),
+		mgen.Vec(4, false, i32),
+		mgen.Struct(false, i8, mgen.Vec(2, false, mgen.Float("float")), mgen.Arr(2, mgen.Vec(8, false, i16))),
 	}
 }
 
@@ -78,6 +81,12 @@ func (g *c07Gen) walk(src *mgen.Type, vecN int, vecSc bool, constOnly bool, maxL
 				}
 				structIdx = rng.Intn(len(r.Fields))
 			case mgen.KArr:
+			case mgen.KVec:
+				// stepping into the elements of a (fixed) vector is legal, like an array
+				if r.Scalable {
+					elem = cur
+					return idx, cur, n, sc, forms
+				}
 			default:
 				elem = cur
 				return idx, cur, n, sc, forms
@@ -613,4 +622,47 @@ func c07Direct(r *fw.Rec) {
 		r.Nontrivial("direct/" + c.name)
 	}
 	r.Sample(map[string]interface{}{"direct_gep.ResultType_cases": len(cases)})
+	// API-built geps over the predeclared types (types.I8, types.I32, ...) in
+	// several address spaces, built one after another: each keeps the type it
+	// had when built, and the predeclared pointer types stay what they are
+	pre := map[string]*types.PointerType{"i1": types.I1Ptr, "i8": types.I8Ptr, "i16": types.I16Ptr, "i32": types.I32Ptr, "i64": types.I64Ptr, "i128": types.I128Ptr}
+	ints := map[string]*types.IntType{"i1": types.I1, "i8": types.I8, "i16": types.I16, "i32": types.I32, "i64": types.I64, "i128": types.I128}
+	type built struct {
+		what string
+		v    interface{ Type() types.Type }
+		want string
+	}
+	var all []built
+	for _, as := range []types.AddrSpace{0, 3, 0, 5, 1, 0} {
+		for _, name := range []string{"i8", "i32", "i64", "i1", "i16", "i128"} {
+			it := ints[name]
+			want := name + "*"
+			if as != 0 {
+				want = fmt.Sprintf("%s addrspace(%d)*", name, as)
+			}
+			base := ir.NewParam("p", p(it, as))
+			g1 := ir.NewGetElementPtr(it, base, constant.NewInt(types.I64, 1))
+			arr := types.NewArray(4, it)
+			g2 := ir.NewGetElementPtr(arr, ir.NewParam("q", p(arr, as)), constant.NewInt(types.I64, 0), constant.NewInt(types.I64, 2))
+			gl := ir.NewGlobal("g", it)
+			gl.AddrSpace = as
+			g3 := constant.NewGetElementPtr(it, gl, constant.NewInt(types.I64, 1))
+			all = append(all, built{fmt.Sprintf("NewGetElementPtr(%s, %s)", name, base.Type()), g1, want}, built{fmt.Sprintf("NewGetElementPtr([4 x %s], as %d)", name, as), g2, want}, built{fmt.Sprintf("constant.NewGetElementPtr(%s, @g as %d)", name, as), g3, want})
+		}
+	}
+	for _, b := range all {
+		r.Eval(1)
+		if got := b.v.Type().String(); got != b.want {
+			r.Violate(fw.Violation{Key: "gep-api-sequence/result-changed-later", What: fmt.Sprintf("%s has type %s after geps in other address spaces were built, want %s", b.what, got, b.want)})
+			return
+		}
+	}
+	for name, pt := range pre {
+		if pt.AddrSpace != 0 || pt.String() != name+"*" {
+			r.Violate(fw.Violation{Key: "gep-api-sequence/predeclared-pointer-changed", What: fmt.Sprintf("the predeclared pointer type types.%sPtr reads %s after geps were built", strings.ToUpper(name), pt)})
+			return
+		}
+	}
+	r.NontrivialN("direct/api-sequence", len(all))
+	r.TallyN("direct", "api-geps-over-predeclared-types", len(all))
 }
